@@ -26,7 +26,22 @@ def gen(rng, tier):
         G.count('density', dens)
         line = "ops %s %s F %s" % (KO.KIND[d['kind']], S.args(d), ",".join(map(str, dens)))
         out.append(Case('refine-op', line, dict(shape=d, dens=dens)))
-    # helper level: explicit curve-level call
+    # tolerance probes: two interior knots closer together than 1e-3 but further apart than the 1e-7 of
+    # the refinement's own zero test (a loosened tolerance would copy instead of blend)
+    for _ in range(8 if tier == 'quick' else 60):
+        d = S.rand_curve(rng, maxp=4, max_interior=0, allow_range=False)
+        p = d['p']
+        t = F(rng.randint(2, 8), 10)
+        eps = rng.choice([F(1, 2000), F(1, 50000), F(3, 10 ** 6)])
+        kv = [F(0)] * (p + 1) + [t, t + eps] + [F(1)] * (p + 1)
+        n = len(kv) - p - 1
+        P = G.points(rng, n, d['dim'])
+        if d['rat']:
+            P = G.homogeneous(P, G.weights(rng, n))
+        d = dict(d, kv=kv, n=n, P=P)
+        G.count('density', 'tol-probe')
+        line = "ops c %s F 1" % S.args(d)
+        out.append(Case('refine-op', line, dict(shape=d, dens=[1]), tags=('tol-probe',)))
     return out
 
 
